@@ -128,6 +128,20 @@ def c14_post(outdir, shard, u):
     return out
 
 
+def fuzz_post(outdir, shard, u):
+    """native go fuzzing: the number of executions and of new coverage-increasing inputs comes from the fuzzer's own log"""
+    import re as _re
+    logf = os.path.join(outdir, "log-%s-%d.txt" % (u["name"].replace("/", "_"), shard))
+    text = open(logf, errors="replace").read() if os.path.exists(logf) else ""
+    execs = [int(x) for x in _re.findall(r"execs: (\d+)", text)]
+    inter = [int(x) for x in _re.findall(r"\(total: (\d+)\)", text)]
+    out = {"property": u["fuzz"]["property"], "unit": u["name"], "shard": shard, "evaluations": max(execs or [0]),
+           "classes": {"fuzz-executions": max(execs or [0]), "coverage-increasing-inputs": max(inter or [0])}, "excluded": {}, "samples": [l for l in text.splitlines() if l.startswith("fuzz: elapsed")][-2:],
+           "violations": [], "knowns": [], "probes_ok": [], "notes": ["go native fuzzing cannot be seeded: the saved failing input is the reproducible unit"],
+           "completed": "\nPASS" in text or text.startswith("PASS"), "exhaustive": False, "nontrivial_count": max(inter or [0]), "fingerprints": []}
+    return out
+
+
 PROPS = {}
 
 PROPS["C15"] = {
@@ -176,6 +190,8 @@ PROPS["C16"] = {
          "shards": {"quick": 1, "thorough": 8}},
         {"name": "exact", "pkg": "./zverif/c16", "run": "^TestVerifC16Exact$", "timeout": {"quick": 400, "thorough": 2400},
          "shards": {"quick": 1, "thorough": 2}},
+        {"name": "totality-fuzz", "pkg": "./zverif/c16", "run": "^$", "tiers": ("thorough",), "timeout": {"thorough": 900},
+         "fuzz": {"target": "^FuzzVerifC16$", "seconds": {"thorough": 240}, "property": "C16"}, "post": fuzz_post},
     ],
     "rule": "totality: byte strings of length 0..16 from rapid (raw bytes; a structured prefix/REX/opcode-map/ModRM generator; real instructions of the "
             "test binary with mutated bytes, truncations and random tails) checked against the totality invariants (no panic incl. String(), "
@@ -210,6 +226,8 @@ PROPS["C18"] = {
     "units": [
         {"name": "pairs", "pkg": "./zverif/c18", "run": "^TestVerifC18$", "timeout": {"quick": 300, "thorough": 2400},
          "shards": {"quick": 1, "thorough": 16}},
+        {"name": "pairs-fuzz", "pkg": "./zverif/c18", "run": "^$", "tiers": ("thorough",), "timeout": {"thorough": 900},
+         "fuzz": {"target": "^FuzzVerifC18$", "seconds": {"thorough": 180}, "property": "C18"}, "post": fuzz_post},
     ],
     "rule": "cases are (parameter type, pattern x, argument y, relation, extra In alternatives): 43 parameter types (all int/uint widths, floats, string, "
             "bool, structs incl. unexported fields and float/slice/map fields, arrays, slices, maps, pointers incl. ** and rings, interface{} and error "
